@@ -57,6 +57,14 @@ CFG_KEYS = ["keepAllTypes", "deepClone", "accumulateBusted", "cloneSchemaDres",
             "cloneRegsFiltered", "cloneRegsByValue", "extKeepRegs", "extLeafCopied"]
 
 
+def _accumulates(replace_src):
+    assigns = re.findall(r"^[ \t]*busted_cache[ \t]*(\|=|=)[ \t]*(.*)$", replace_src, re.M)
+    later = [(op, rhs.strip()) for op, rhs in assigns if not (op == "=" and rhs.strip() == "False")]
+    if not later:
+        return False
+    return all(op == "|=" or re.match(r"(busted_cache\s+or\b|True\b)", rhs) for op, rhs in later)
+
+
 def read_cfg():
     """Which variant of the anchored code is in the working tree (see Heap.lean `Cfg`)."""
     src = SCHEMA_PY.read_text()
@@ -79,7 +87,9 @@ def read_cfg():
     cfg = {
         "keepAllTypes": bool(re.search(r"types\.setdefault\(|types=list\(self\.types", clone_src)),
         "deepClone": "_clone_type(t)" in clone_src and "_clone_field" in src,
-        "accumulateBusted": bool(re.search(r"busted_cache\s*=\s*busted_cache\s+or|busted_cache\s*\|=|if new_type != original_type:\s*\n\s*busted_cache = True", replace_src)),
+        # EVERY assignment to the flag (types loop and directives loop) must accumulate: `busted_cache = busted_cache or …`,
+        # `busted_cache |= …`, or a guarded `busted_cache = True`; one overwriting assignment is the legacy variant (T3)
+        "accumulateBusted": _accumulates(replace_src),
         "cloneSchemaDres": "cloned.default_resolver" in clone_src,
     }
     # how clone() copies the resolver registries:
